@@ -22,7 +22,7 @@ from c11 import DataGen, IDS
 PROP = "C16"
 PROP_FILE = "C16_Level"
 THEOREMS = ["c16_monotone", "c16_level_independent_of_max", "c16_slice_subset", "c16_slice_monotone",
-            "c16_slice_keeps_data", "c16_slice_sound_partial"]
+            "c16_slice_keeps_data", "c16_slice_hop_closed", "c16_slice_sound_partial"]
 
 MANIFEST = {
     "text": "Level checker (LevelChecker::check_expr_level / check_entity_deref_target_level) transcribed on typed expressions; slice_at_level defined as in DESIGN C16. Theorems: acceptance monotone in n (full), slice monotone / subset / keeps entity data (full), slice soundness for a stated fragment (partial). Tied to /repo by correspondence on (policy, n) verdicts with error kinds and required levels, and by an implementation-level oracle: authorization over slice, full store and an intermediate store agree for accepted sets.",
